@@ -118,7 +118,13 @@ func runCheck(o *checkOpts) int {
 	if o.property == "all" {
 		props = nil
 	}
-	dirs := eng.dirsFor(props)
+	if len(eng.dirsFor(props)) == 0 {
+		fmt.Fprintf(os.Stderr, "govc: no contracts claim property %s\n", o.property)
+		return 2
+	}
+	// every package that has contracts is loaded, so that callee contracts are the same whichever
+	// property is being checked
+	dirs := eng.dirsFor(nil)
 	if len(dirs) == 0 {
 		fmt.Fprintf(os.Stderr, "govc: no contracts claim property %s\n", o.property)
 		return 2
